@@ -222,10 +222,43 @@ func genC06Strlen(r *plan.Rng) *plan.Plan {
 func genC06Recursion(r *plan.Rng) *plan.Plan {
 	p := &plan.Plan{Shape: "recursion"}
 	depth := []int{10, 500, 1000, 1021, 1022, 1023, 1024, 1025, 1500, 2047, 2048, 5000, 100000}[r.Intn(13)]
-	width := []int{0, 0, 1, 2, 8, 30}[r.Intn(6)]
+	width := []int{0, 0, 1, 2, 8, 30, -1, -2}[r.Intn(8)]
 	param(p, "depth", int64(depth))
 	param(p, "width", int64(width))
 	var src string
+	if width == -1 {
+		// variadic recursion through a spread call
+		src = lines(
+			"f := func(...a) {",
+			"	if a[0] == 0 {",
+			"		return 0",
+			"	}",
+			"	return 1 + f([a[0] - 1, 7]...)",
+			"}",
+			"out := f("+itoa(depth)+", 7)")
+		note(p, "kinds", "rec/variadic/d"+itoa(depth))
+		p.Scripts = []plan.Script{{Src: src, Inputs: c06Inputs()}}
+		return p
+	}
+	if width == -2 {
+		// recursion of a closure with free variables, creating a closure per level
+		src = lines(
+			"mk := func(step) {",
+			"	g := 0",
+			"	g = func(d) {",
+			"		if d <= 0 {",
+			"			return 0",
+			"		}",
+			"		h := func() { return d - step }",
+			"		return 1 + g(h())",
+			"	}",
+			"	return g",
+			"}",
+			"out := mk(1)("+itoa(depth)+")")
+		note(p, "kinds", "rec/closure/d"+itoa(depth))
+		p.Scripts = []plan.Script{{Src: src, Inputs: c06Inputs()}}
+		return p
+	}
 	if width == 0 {
 		// frames occupy one operand slot each: the frame limit is what runs out
 		src = lines(
